@@ -6,11 +6,13 @@
 #include "sched/sched.hpp"
 
 #include <atomic>
+#include <cstring>
 #include <igris/container/dlist.h>
 #include <igris/event/safe_queue.h>
 #include <igris/osinter/wait.h>
 #include <igris/sync/syslock.h>
 #include <memory>
+#include <mutex>
 #include <string>
 #include <vector>
 
@@ -73,7 +75,7 @@ struct LockProg : Program
     std::atomic<int> saved{0}, b_done{0}, entered_during_save{0};
     LockProg(int v) : variant(v)
     {
-        name = v == 0 ? "L1_nested" : v == 1 ? "L2_save_restore" : "L3_save_releases";
+        name = v == 0 ? "L1_nested" : v == 1 ? "L2_save_restore" : v == 2 ? "L3_save_releases" : "L4_scoped_guards";
         nthreads = 3;
     }
     void enter_outer(int id)
@@ -89,7 +91,8 @@ struct LockProg : Program
         sched::yield(); // let anybody run while we are inside
         if (shared != id || owner.load() != id)
             log.fail(id, "mutual_exclusion", "shared word / owner changed while inside the critical section");
-        if (syslock_counter() != depth)
+        // depth < 0: the nesting goes through a scoped guard, whose bookkeeping is its own business
+        if (depth >= 0 && syslock_counter() != depth)
             log.fail(id, "depth", mc::fmt("syslock_counter()=%d inside depth %d", syslock_counter(), depth).c_str());
     }
     void nesting_body(int id, int nest)
@@ -113,9 +116,55 @@ struct LockProg : Program
             log.fail(id, "depth", "counter not 0 after the outermost unlock");
         log.returned[id] = 1;
     }
+    // the C++ faces of the same lock: igris::syslock_guard (scoped) and igris::syslock (BasicLockable)
+    void guard_body(int id, int shape)
+    {
+        if (shape == 0)
+        {
+            // two guards whose lifetimes overlap without nesting: the lock stays owned until the LAST one dies
+            std::unique_ptr<igris::syslock_guard> a(new igris::syslock_guard); // outermost acquisition through a guard
+            enter_outer(id);
+            inside(id, 1);
+            std::unique_ptr<igris::syslock_guard> b(new igris::syslock_guard); // re-entry by the owner
+            inside(id, -1);
+            a.reset();
+            inside(id, -1); // b is still alive
+            owner = -1;
+            b.reset();
+        }
+        else if (shape == 1)
+        {
+            igris::syslock l;
+            std::lock_guard<igris::syslock> g(l);
+            enter_outer(id);
+            inside(id, 1);
+            owner = -1;
+        }
+        else
+        {
+            system_lock();
+            enter_outer(id);
+            {
+                igris::syslock_guard g; // guard inside a plain critical section
+                inside(id, -1);
+                system_unlock(); // undoes ONE acquisition; the guard's is still outstanding
+                inside(id, -1);
+                owner = -1;
+            }
+        }
+        if (syslock_counter() < 0)
+            log.fail(id, "depth", "counter negative after the scope ended");
+        log.returned[id] = 1;
+    }
     void setup() override
     {
-        if (variant == 0)
+        if (variant == 3)
+        {
+            sched::spawn([this] { guard_body(0, 0); }, "guards");
+            sched::spawn([this] { guard_body(1, 1); }, "lockable");
+            sched::spawn([this] { guard_body(2, 2); }, "guard_in_lock");
+        }
+        else if (variant == 0)
         {
             sched::spawn([this] { nesting_body(0, 2); }, "nest2");
             sched::spawn([this] { nesting_body(1, 1); }, "plain");
@@ -205,6 +254,21 @@ struct LockProg : Program
 };
 
 // ------------------------------------------------------------------ W: wait queues
+// The linux_waiter of a parked thread lives in the stack frame of wait_current_schedee().  Once that call
+// has returned the frame is dead; overwriting the area right away turns a late access of the waker to the
+// dead waiter (after the wake-up was delivered) into a write/write race the ThreadSanitizer build reports,
+// instead of a silent scribble on whatever the stack holds next.
+__attribute__((noinline)) static void scrub_dead_frames()
+{
+    char area[1536];
+    char *p = area;
+    asm volatile("" : "+r"(p) : : "memory"); // the address escapes: accesses to provably private locals are not instrumented
+    // through a volatile function pointer: an inlined memset (rep stos) would carry no instrumentation
+    static void *(*volatile fill)(void *, int, size_t) = memset;
+    fill(p, 0x5a, sizeof area);
+    asm volatile("" : : "r"(p) : "memory");
+}
+
 struct WaitProg : Program
 {
     // variants:
@@ -227,6 +291,7 @@ struct WaitProg : Program
     {
         void *fut = (void *)-1;
         int rc = wait_current_schedee(head.get(), prio, &fut);
+        scrub_dead_frames();
         log.value[id] = (long)(intptr_t)fut;
         log.stamp[id] = log.clock++;
         log.returned[id] += 1;
@@ -592,7 +657,7 @@ static void add_one(const std::string &pname, std::function<Program *()> make, i
 
 MC_INIT
 {
-    for (int v = 0; v < 3; v++)
+    for (int v = 0; v < 4; v++)
         add_prog(LockProg(v).name, [v] { return new LockProg(v); }, 2, 3);
     for (int v = 0; v < 6; v++)
     {
